@@ -170,7 +170,7 @@ pub proof fn distinct_sum_eq_when_distinct(l: Map<u64, LaneState>, ms: Seq<Merge
         final(st).to_send == old(st).to_send, final(st).lane_states == old(st).lane_states,
         final(st).min_settle_height == old(st).min_settle_height,
         // only a channel party may settle, only once, and collection is at least SETTLE_DELAY away and not before min_settle_height
-        r.is_ok() ==> (old(rt).msg.caller == old(st).from || old(rt).msg.caller == old(st).to),
+        /*C11*/ r.is_ok() ==> (old(rt).msg.caller == old(st).from || old(rt).msg.caller == old(st).to) && final(rt).validated@.is_some(),
         r.is_ok() ==> old(st).settling_at == 0,
         r.is_ok() ==> final(st).settling_at == (if old(rt).epoch + SETTLE_DELAY >= old(st).min_settle_height { old(rt).epoch + SETTLE_DELAY } else { old(st).min_settle_height as int }),
         r.is_err() ==> final(st).settling_at == old(st).settling_at,
@@ -196,6 +196,7 @@ pub proof fn distinct_sum_eq_when_distinct(l: Map<u64, LaneState>, ms: Seq<Merge
             &&& final(rt).balance@ == 0
             &&& final(rt).deleted@
         }),
+        /*C11*/ r.is_ok() ==> (old(rt).msg.caller == rt_state::<State>(old(rt).state_id@).from || old(rt).msg.caller == rt_state::<State>(old(rt).state_id@).to) && final(rt).validated@.is_some(),
         // nothing is paid out unless the whole collection succeeds in order
         r.is_err() ==> final(rt).sends@.len() <= 2 && !final(rt).deleted@,
 //@ end
